@@ -10,12 +10,12 @@
 (* ClusterState's predicates after every call (Trace_Cluster).             *)
 (***************************************************************************)
 EXTENDS Integers, Sequences, FiniteSets, TLC
-CONSTANTS MaxOps, MaxWl, FaultAt
+CONSTANTS MaxOps, MaxWl, FaultAt, FaultKinds      \* FaultKinds: "fail" (call f returns an error) / "cancel" (the caller gives up before call f)
 VARIABLES live, hist
 vars == <<live, hist>>
 Op(kind, strategy, count, req, target, force, delta, f) ==
     [kind |-> kind, strategy |-> strategy, count |-> count, limit |-> 0, nodes |-> <<>>, pod |-> "p1", req |-> req,
-     targets |-> IF target < 0 THEN <<>> ELSE <<target>>, force |-> force, delta |-> delta, app |-> "a", stdin |-> FALSE, fault |-> f]
+     targets |-> IF target < 0 THEN <<>> ELSE <<target>>, force |-> force, delta |-> delta, app |-> "a", stdin |-> FALSE, fault |-> f, cancel |-> FALSE]
 Init == live = 0 /\ hist = <<>>
 \* a failing create may still create some instances: the driver re-reads the live list; the model only bounds it
 Create == \E s \in {"AUTO", "FILL", "EACH"}, c \in {1, 2}, r \in {"u", "b", "h"}, f \in FaultAt :
@@ -37,6 +37,9 @@ Capacity == \E s \in {"DUMMY", "AUTO", "FILL", "EACH"}, c \in {1, 2, 3}, r \in {
 CapacityThenCreate == \E s \in {"AUTO", "FILL", "EACH"}, c \in {1, 2, 3}, r \in {"u", "b", "h", "m"} :
              /\ Len(hist) + 2 <= MaxOps /\ live + c <= MaxWl /\ live' = live + c
              /\ hist' = hist \o <<Op("capacity", s, c, r, -1, FALSE, "", 0), Op("create", s, c, r, -1, FALSE, "", 0)>>
-Next == Len(hist) < MaxOps /\ (Create \/ Remove \/ Dissociate \/ Realloc \/ Replace \/ SetNode \/ Capacity \/ CapacityThenCreate)
+\* the failure of the step just appended is the caller giving up instead of an error return
+AsCancel == /\ hist # <<>> /\ "cancel" \in FaultKinds /\ hist[Len(hist)].fault # 0 /\ ~hist[Len(hist)].cancel
+            /\ hist' = [hist EXCEPT ![Len(hist)].cancel = TRUE] /\ UNCHANGED live
+Next == AsCancel \/ (Len(hist) < MaxOps /\ (Create \/ Remove \/ Dissociate \/ Realloc \/ Replace \/ SetNode \/ Capacity \/ CapacityThenCreate))
 Spec == Init /\ [][Next]_vars
 =============================================================================
